@@ -11,6 +11,7 @@
 
   Written for the property-conforming behaviour where the shipped code is defective:
     D14  the payload length is unpacked unsigned (`'<I'`), so lengths ≥ 2^31 hit the MAX_SIZE guard;
+    D20  `msg_version.msg_ser` writes only the fields the message's nVersion carries;
     D15  `headers` entries carry the CompactSize transaction count 0 after each 80-byte header
          (written by msg_ser; read and discarded by msg_deser).
 
@@ -19,8 +20,8 @@
     * `msg_deser` reads from `BytesIO(payload)`; payload bytes left over are ignored;
     * an unknown command prints a line and returns `None` (outcome `ok none`), the frame consumed;
     * the command is the part of the 12-byte field before the first NUL; what follows is ignored;
-    * `msg_version.msg_ser` writes every field unconditionally, `msg_deser` reads `addrFrom …` only
-      from nVersion 106, the height from 209, `fRelay` from 70001 (else `True`), and maps 10300 to 300;
+    * `msg_version.msg_deser` reads `addrFrom …` only from nVersion 106, the height from 209, `fRelay`
+      from 70001 (else `True`), and maps 10300 to 300; `msg_ser` writes under the same conditions (D20);
     * `CAddress.stream_deserialize` builds `cls()` whose protover is PROTO_VERSION.
   `socket.inet_pton / inet_ntop` are modelled, not verified: the model carries the 16 packed bytes
   (contract: `inet_pton(f, inet_ntop(f, b)) = b`, validated by the correspondence run).
@@ -99,28 +100,36 @@ def serLocatorMsg (l : Locator) (hashstop : Bytes) : Res Bytes := do
   let a ← serLocator l
   pure (a ++ hashstop)
 
-/-- `msg_version.msg_ser`: all fields, whatever nVersion.  A `None` field raises: `None` has no
-    `stream_serialize` (AttributeError), `struct.pack` of None is `struct.error`, `len(None)` is
-    TypeError. -/
+/-- `msg_version.msg_ser` (D20 repaired): the fields after `addrTo` are written under the same
+    conditions `msg_deser` reads them — `addrFrom`, `nNonce`, `strSubVer` from nVersion 106, the height
+    from 209, `fRelay` from 70001.  A `None` field that is due raises: `None` has no `stream_serialize`
+    (AttributeError), `struct.pack` of None is `struct.error`, `len(None)` is TypeError. -/
 def serVersion (v : VersionMsg) : Res Bytes := do
   let a ← packI 4 v.nVersion
   let b ← packU 8 v.nServices
   let c ← packI 8 v.nTime
   let d ← serAddr true v.addrTo
-  let e ← match v.addrFrom with
-    | some x => serAddr true x
-    | none => throw (.py "AttributeError")
-  let f ← match v.nNonce with
-    | some n => packU 8 n
-    | none => throw structError
-  let g ← match v.strSubVer with
-    | some s => serVarStr s
-    | none => throw (.py "TypeError")
-  let h ← match v.nStartingHeight with
-    | some n => packI 4 n
-    | none => throw structError
-  let i ← packU 1 v.fRelay
-  pure (a ++ b ++ c ++ d ++ e ++ f ++ g ++ h ++ i)
+  let e ←
+    if v.nVersion ≥ 106 then do
+      let e ← match v.addrFrom with
+        | some x => serAddr true x
+        | none => throw (.py "AttributeError")
+      let f ← match v.nNonce with
+        | some n => packU 8 n
+        | none => throw structError
+      let g ← match v.strSubVer with
+        | some s => serVarStr s
+        | none => throw (.py "TypeError")
+      let h ←
+        if v.nVersion ≥ 209 then
+          (match v.nStartingHeight with
+           | some n => packI 4 n
+           | none => throw structError)
+        else pure []
+      pure (e ++ f ++ g ++ h)
+    else pure []
+  let i ← if v.nVersion ≥ 70001 then packU 1 v.fRelay else pure []
+  pure (a ++ b ++ c ++ d ++ e ++ i)
 
 /-- `msg_headers.msg_ser` (D15 repaired): each header followed by CompactSize 0 -/
 def serHeaderEntry (h : Header) : Res Bytes := do
